@@ -14,7 +14,8 @@ RULE = (
     "of tensors over dtypes {float16, float32, float64, bfloat16, int8, int32, int64, bool, "
     "complex64} and shapes incl. scalars and zero-size, views sharing one storage, plain Python "
     "containers; x payload text (statement calling verif_sink.sink(tag) with tags that are "
-    "digits-only / quoted / non-ASCII / escaped) x overwrite in {False, True}. Oracle: sha256 of "
+    "digits-only / quoted / non-ASCII / escaped) x overwrite in {False, True} x relative naming of "
+    "input and output (unrelated, differing only in letter case, suffixed, in a sub-directory). Oracle: sha256 of "
     "the input unchanged (overwrite False) or input path replaced by the output with no stray "
     "file (overwrite True); namelist equal and in order; every member other than */data.pkl "
     "byte-identical; data.pkl == Pickled.load(original).insert_python_exec(payload).dumps(); "
@@ -136,7 +137,21 @@ def features(spec):
     return out
 
 
-def check(spec, tag, overwrite, scratch):
+# how the input and the output are named relative to each other
+NAMINGS = {
+    "plain": ("model.pt", "out.pt"),
+    "case": ("Model.pt", "model.pt"),  # differ only in letter case (distinct files here)
+    "suffix": ("model.pt", "model.pt.injected"),
+    "subdir": ("model.pt", os.path.join("o", "out.pt")),
+    "upper_ext": ("checkpoint.pt", "checkpoint.PT"),
+}
+
+
+def _listing(root):
+    return {os.path.relpath(os.path.join(d, f), root) for d, _ds, fs in os.walk(root) for f in fs}
+
+
+def check(spec, tag, overwrite, scratch, naming="plain"):
     import torch
     import verif_sink
 
@@ -144,10 +159,12 @@ def check(spec, tag, overwrite, scratch):
     from fickling.pytorch import PyTorchModelWrapper
 
     reset_pickle_bindings()
-    case = {"spec": spec, "tag": tag, "overwrite": overwrite}
+    case = {"spec": spec, "tag": tag, "overwrite": overwrite, "naming": naming}
     obj = build(spec, torch)
-    src = os.path.join(scratch.path, "model.pt")
-    dst = os.path.join(scratch.path, "out.pt")
+    src_name, dst_name = NAMINGS[naming]
+    src = os.path.join(scratch.path, src_name)
+    dst = os.path.join(scratch.path, dst_name)
+    os.makedirs(os.path.dirname(dst), exist_ok=True)
     torch.save(obj, src)
     # (every other case) a payload with a whitespace-only line and trailing blanks: what is
     # executed must be the payload exactly as given
@@ -172,7 +189,7 @@ def check(spec, tag, overwrite, scratch):
         return fail(f"the payload {payload[:60]!r}... cannot be inserted into data.pkl at all: "
                     f"{type(e).__name__}: {e}")
 
-    before = set(os.listdir(scratch.path))
+    before = _listing(scratch.path)
     import contextlib
     import io
     import warnings
@@ -183,14 +200,18 @@ def check(spec, tag, overwrite, scratch):
             PyTorchModelWrapper(src).inject_payload(payload, dst, injection="insertion", overwrite=overwrite)
     except Exception as e:  # noqa: BLE001
         return fail(f"inject_payload raised {type(e).__name__}: {e}")
-    after = set(os.listdir(scratch.path))
+    after = _listing(scratch.path)
     if overwrite:
         if after != before:
-            return fail(f"directory changed: {sorted(after ^ before)} (stray output left or input removed)")
+            return fail(f"directory changed: {sorted(after ^ before)} (stray output left or input removed; "
+                        f"input {src_name!r}, requested output {dst_name!r})")
+        if sha(src) == sha0:
+            return fail(f"overwrite requested but the input {src_name!r} still has its original bytes "
+                        f"(requested output {dst_name!r})")
         result = src
     else:
-        if after - before != {"out.pt"} or before - after:
-            return fail(f"directory delta {sorted(after ^ before)}, expected only out.pt")
+        if after - before != {dst_name} or before - after:
+            return fail(f"directory delta {sorted(after ^ before)}, expected only {dst_name}")
         if sha(src) != sha0:
             return fail("the input file was modified although overwrite was not requested")
         result = dst
@@ -264,7 +285,7 @@ def _brief(spec):
 
 def replay(case):
     with Scratch("c16") as scratch:
-        return check(_tup(case["spec"]), case["tag"], case["overwrite"], scratch)
+        return check(_tup(case["spec"]), case["tag"], case["overwrite"], scratch, case.get("naming", "plain"))
 
 
 def _tup(x):
@@ -315,17 +336,17 @@ def run_shard(spec_, seed):
     from vlib import values
 
     tags = st.one_of(st.sampled_from(TAGS), values.texts(20))
-    strat = st.tuples(_specs(), tags, st.booleans())
+    strat = st.tuples(_specs(), tags, st.booleans(), st.sampled_from(sorted(NAMINGS)))
     with Scratch("c16") as scratch:
 
         def body(case):
-            spec, tag, overwrite = case
-            f = check(spec, tag, overwrite, scratch)
+            spec, tag, overwrite, naming = case
+            f = check(spec, tag, overwrite, scratch, naming)
             ft = features(spec)
             res.note(
                 repr(case),
                 ft["storages"] >= 2 or ft["zero"] or ft["shared"],
-                klass=[f"overwrite={overwrite}", "shared" if ft["shared"] else "unshared", spec[0]],
+                klass=[f"overwrite={overwrite}", "shared" if ft["shared"] else "unshared", spec[0], f"naming-{naming}"],
                 sample={"spec": _brief(spec), "tag": tag[:40], "overwrite": overwrite},
             )
             scratch.wipe()
